@@ -158,7 +158,20 @@ func genC06Imp(out *caseWriter, seed uint64, n int, _ []string) error {
 			var fs []string
 			add := func(name, content string) { fs = append(fs, vesc(name), vesc(content)) }
 			expect := "-"
-			switch shape := r.intn(5); shape {
+			switch shape := r.intn(6); shape {
+			case 5: // many files that all use the same, otherwise unknown, commodities first (registries filled concurrently)
+				nfiles, ncom := r.rangeInt(8, 16), r.rangeInt(20, 60)
+				root := opens
+				for f := 0; f < nfiles; f++ {
+					root += fmt.Sprintf("include \"w/f%d.knut\"\n", f)
+					var b strings.Builder
+					for c := 0; c < ncom; c++ {
+						fmt.Fprintf(&b, "2021-03-%02d \"buy\"\nEquity:Opening Assets:Bank %d ISIN%04d\n\n", 1+(c+f)%28, 1+f+c, c)
+					}
+					add(fmt.Sprintf("w/f%d.knut", f), b.String())
+				}
+				fs = append([]string{vesc("root.knut"), vesc(root)}, fs...)
+				expect = "OK"
 			case 0: // diamond: root -> a, b; a -> c; b -> c
 				add("root.knut", opens+"include \"a.knut\"\ninclude \"b.knut\"\n"+txn(1, "r", "Equity:Opening", "Assets:Bank", 1000))
 				add("a.knut", "include \"sub/c.knut\"\n"+txn(2, "a", "Income:Salary", "Assets:Bank", r.rangeInt(1, 500)))
